@@ -201,7 +201,7 @@ def exception_sessions(ck, scn, scripts, cpu, schedules, tag):
             ck.oracle_fail('datapoint_contiguous', inp, {'first': bad[:3]}, signature={'parallel': True})
 
 
-def resumed_scenario(ck, tag):
+def resumed_scenario(ck, tag, fixed=None):
     """history: an earlier session is interrupted part-way, the build products are gone, the experiment is continued
     under every scheduler: a continued run needs its (shared) build again before its first process of THIS session"""
     import shutil
@@ -226,13 +226,19 @@ def resumed_scenario(ck, tag):
     scripts = [[{'rc': 0, 'dps': 1}] * (r['N'] + 2) for r in runs]
     total = sum(r['N'] for r in runs)
     stop_at = rng.randint(2, max(2, total - 1))
+    first_sched = rng.choice(['batch', 'round-robin'])
+    if fixed is not None:
+        scn, scripts, stop_at, first_sched = fixed['scn'], fixed['scripts'], fixed['stop_at'], fixed.get('first_sched', 'batch')
+        runs = scn['runs']
     wd0 = c04._mkwd(ck)
-    first = c10.run_with_interrupt(wd0, scn, {'sched': rng.choice(['batch', 'round-robin']), 'scripts': scripts, 'cpu': 1,
+    first = c10.run_with_interrupt(wd0, scn, {'sched': first_sched, 'scripts': scripts, 'cpu': 1,
                                               'builds': {}, 'needs_build': True}, stop_at)
     ck.impl_traces += 1
     before = first['file']['rows']
     ck.count('resumed:first session %s' % first['status'])
     plans = [('batch', []), ('round-robin', [])] + [('random', [rng.randrange(64) for _ in range(80)]) for _ in range(3)]
+    if fixed is not None and fixed.get('sched') not in (None, 'batch'):
+        plans = [('batch', []), (fixed['sched'], fixed.get('choices') or [])]
     ref = None
     data_file = os.path.join(wd0, 't.data')
     saved = open(data_file, 'rb').read() if os.path.exists(data_file) else None
@@ -248,6 +254,7 @@ def resumed_scenario(ck, tag):
                 f.write(saved)
         sess = {'sched': sched, 'choices': choices, 'scripts': scripts, 'cpu': 1, 'builds': {}, 'needs_build': True}
         inp = {'kind': 'resumed', 'scn': scn, 'scripts': scripts, 'stop_at': stop_at, 'sched': sched, 'choices': choices,
+               'first_sched': first_sched,
                'recorded_before': sorted(set((r[0], r[1]) for r in before))}
         obs = ds.run_session(wd, scn, sess)
         ck.impl_traces += 1
@@ -595,8 +602,7 @@ def run_input(ck, inp, tag):
         parallel_scenario(ck, inp['scn'], inp['scripts'], inp.get('cpu', 8), [inp.get('schedule') or []], tag,
                           local=inp.get('local', 'batch'))
     elif kind == 'resumed':
-        ck.notes.append('resumed histories are re-generated from the seed')
-        resumed_scenario(ck, tag)
+        resumed_scenario(ck, tag, fixed=inp)
     elif kind == 'parallel-exception':
         exception_sessions(ck, inp['scn'], inp['scripts'], inp.get('cpu', 8), [inp.get('schedule') or []], tag)
     elif kind == 'free':
